@@ -50,3 +50,75 @@ Check (C16_bedgraph_pipeline_records : forall fparse szs recs file ips, (0 < ips
 Check (C16_compat_args_tools : forall tool args, In tool COMPAT_COMMANDS ->
   compat_args (tool :: args) = compat_args_vec (tool :: args) /\
   compat_args (COMPAT_MULTICALL :: tool :: args) = compat_args_vec (COMPAT_MULTICALL :: tool :: args)).
+
+(* ---- through the file bytes (Model/CliFile.v, Proofs/CliEndToEnd.v) ---- *)
+From BT Require Import Base.LE Base.Float Model.RTree Model.AutoSql Model.BigBedWrite Model.BBIReadBed Model.CliFile.
+From BT Require Import Proofs.RTreeCodec Proofs.BigWigFileChroms Proofs.BigWigFileInput Proofs.AcceptRules Proofs.CliEndToEnd.
+From BT Require Model.Accept Model.AcceptBed Proofs.BigWigFileRoundTrip Proofs.BedCodec Proofs.BedReadInfo Proofs.BedEndToEnd.
+Check (C16_bedgraph_file_roundtrip : forall pf fp o two_pass cs_text in_text sizes items,
+  parse_chrom_sizes cs_text = Ok sizes -> mapM (parse_bedgraph pf) (lines in_text) = Ok items ->
+  BigWigFileRoundTrip.opts_ok o -> BigWigFileRoundTrip.input_ok sizes items ->
+  items <> [] -> stream_ok bw_good_val bw_good_pair (o_sort_all o) sizes [] None items ->
+  exists bs, bedgraphtobigwig_file pf fp o two_pass cs_text in_text = Ok bs /\
+    (Nlen bs < U64 -> forall infl,
+       bigwigtobedgraph_records infl bs None None None = Ok (filter (fun it => negb (bzero sizes it)) items)
+       /\ (Forall (fun it : item => v_start (snd it) < v_end (snd it)) items ->
+           bigwigtobedgraph_records infl bs None None None = Ok items))).
+Check (C16_bedgraph_file_text : forall pf pr fp o two_pass cs_text in_text sizes items,
+  parse_chrom_sizes cs_text = Ok sizes -> mapM (parse_bedgraph pf) (lines in_text) = Ok items ->
+  BigWigFileRoundTrip.opts_ok o -> BigWigFileRoundTrip.input_ok sizes items ->
+  items <> [] -> stream_ok bw_good_val bw_good_pair (o_sort_all o) sizes [] None items ->
+  Forall (fun it : item => v_start (snd it) < v_end (snd it)) items ->
+  exists bs, bedgraphtobigwig_file pf fp o two_pass cs_text in_text = Ok bs /\
+    (Nlen bs < U64 -> forall infl,
+       bigwigtobedgraph_file infl pr bs None None None = Ok (format_bedgraph_records pr items)
+       /\ (Forall (fun it : item => printer_ok pf pr (v_bits (snd it))) items ->
+           mapM (parse_bedgraph pf) (lines (format_bedgraph_records pr items)) = Ok items))).
+Check (C16_bed_file_roundtrip : forall fp o two_pass user_autosql cs_text in_text sizes items,
+  parse_chrom_sizes cs_text = Ok sizes -> mapM parse_bed (lines in_text) = Ok items ->
+  (forall s, user_autosql = Some s -> AcceptBed.has_nul s = false) ->
+  Accept.opts_ok o = true -> items <> [] ->
+  stream_ok bb_good_val bb_good_pair (o_sort_all o) sizes [] None (AcceptBed.bb_items (to_bitems items)) ->
+  exists f, bedtobigbed_file fp o two_pass user_autosql cs_text in_text = Ok f /\
+    (BedEndToEnd.file_hyps o sizes (to_bitems items) f -> forall infl,
+       bigbedtobed_records infl f None None None = Ok items
+       /\ bigbedtobed_file infl f None None None = Ok (format_bed_text items)
+       /\ mapM parse_bed (lines (format_bed_text items)) = Ok items
+       /\ (forall items0, Forall canonical_bed items0 -> in_text = format_bed_text items0 ->
+             bigbedtobed_file infl f None None None = Ok in_text))).
+Check (C16_restrict_file_bigwig : forall pf fp o two_pass cs_text in_text sizes items bs,
+  parse_chrom_sizes cs_text = Ok sizes -> mapM (parse_bedgraph pf) (lines in_text) = Ok items ->
+  BigWigFileRoundTrip.opts_ok o -> BigWigFileRoundTrip.input_ok sizes items ->
+  bedgraphtobigwig_file pf fp o two_pass cs_text in_text = Ok bs -> Nlen bs < U64 ->
+  forall infl st en,
+    (forall c, In c (map fst items) ->
+       exists len i, lookup c sizes = Some len /\ read_info bs = Ok i /\
+         let s := match st with Some s => s | None => 0 end in
+         let e := match en with Some e => e | None => len end in
+         bw_interval infl bs i c s e = Ok (clip_filter s e (vals_of items c)) /\
+         bigwigtobedgraph_records infl bs (Some c) st en = Ok (map (fun v => (c, v)) (clip_filter s e (vals_of items c))))
+    /\ (forall c, ~ In c (map fst items) -> bigwigtobedgraph_records infl bs (Some c) st en = Ok [])
+    /\ ((st <> None \/ en <> None) -> bigwigtobedgraph_records infl bs None st en = Ok [])).
+Check (C16_restrict_file_bigbed : forall fp o two_pass user_autosql cs_text in_text sizes items f,
+  parse_chrom_sizes cs_text = Ok sizes -> mapM parse_bed (lines in_text) = Ok items ->
+  bedtobigbed_file fp o two_pass user_autosql cs_text in_text = Ok f -> BedEndToEnd.file_hyps o sizes (to_bitems items) f ->
+  forall infl st en,
+    (forall c es, In (c, es) (bruns (to_bitems items)) ->
+       exists len i, lookup c sizes = Some len /\ read_info f = Ok i /\
+         let s := match st with Some s => s | None => 0 end in
+         let e := match en with Some e => e | None => len end in
+         bb_interval infl f i c s e = Ok (filter (bkeep s e) es) /\
+         bigbedtobed_records infl f (Some c) st en = Ok (map (fun x => (c, of_entry x)) (filter (bkeep s e) es)))
+    /\ (forall c, ~ In c (map fst items) -> bigbedtobed_records infl f (Some c) st en = Ok [])
+    /\ ((st <> None \/ en <> None) -> bigbedtobed_records infl f None st en = Ok [])).
+Check (C16_bedgraph_input_ok : forall pf cs_text in_text sizes items,
+  parse_chrom_sizes cs_text = Ok sizes -> mapM (parse_bedgraph pf) (lines in_text) = Ok items ->
+  (forall t b, pf t = Some b -> b < U32) ->
+  Forall (fun it : item => no_zero (fst it) /\ Nlen (fst it) < U32) items -> Nlen (runs items) < U16 ->
+  BigWigFileRoundTrip.input_ok sizes items).
+Check (C16_bed_file_hyps : forall o cs_text in_text sizes items f,
+  parse_chrom_sizes cs_text = Ok sizes -> mapM parse_bed (lines in_text) = Ok items ->
+  o_bs o <= 65535 -> Nlen (bruns (to_bitems items)) < U16 ->
+  Forall (fun it : name * bed_entry => BedReadInfo.no_nul_name (fst it) /\ Nlen (fst it) < U32 /\ BedCodec.no_nul (be_rest (snd it))
+                                       /\ ~ (be_start (snd it) = 0 /\ be_end (snd it) = 0)) items ->
+  Nlen f <= U64 -> BedEndToEnd.file_hyps o sizes (to_bitems items) f).
